@@ -858,6 +858,7 @@ int main() {
     if (!line.empty() && line[0] == '#') {
       if (active) endHistory(false);
       std::cout << line << "\n";
+      std::cerr << line << std::endl;     // lets the checker attribute sanitizer reports to a history
       active = true;
       continue;
     }
